@@ -218,7 +218,15 @@ func mergeAuthorizerHealthCheckEvents() *eventsMergerImpl[dbs.DbHealthCheck] {
 }
 
 func mergeAuthorizerBurnEvents() *eventsMergerImpl[state.Burn] {
-	return newEventsMerger[state.Burn](TagAuthorizerBurn, withUniqueEventOverwrite())
+	return newEventsMerger[state.Burn](TagAuthorizerBurn, withAuthorizerBurnMerged())
+}
+
+// withAuthorizerBurnMerged adds up the burns of one client in a block.
+func withAuthorizerBurnMerged() eventMergeMiddleware {
+	return withEventMerge(func(a, b *state.Burn) (*state.Burn, error) {
+		a.Amount += b.Amount
+		return a, nil
+	})
 }
 
 func mergeAddBridgeMintEvents() *eventsMergerImpl[BridgeMint] {
